@@ -3,13 +3,13 @@
 LAYER_DEFAULTS = {
     'tracer': {'quick': {'n': 60, 'size': 40, 'shards': 2}, 'thorough': {'n': 400, 'size': 120, 'shards': 16}},
     'conc': {'quick': {'n': 4, 'size': 20, 'shards': 1}, 'thorough': {'n': 40, 'size': 25, 'shards': 2}},
-    'diff': {'quick': {'n': 250, 'size': 20, 'shards': 4}, 'thorough': {'n': 3000, 'size': 30, 'shards': 16}},
+    'diff': {'quick': {'n': 250, 'size': 20, 'shards': 4}, 'thorough': {'n': 1200, 'size': 30, 'shards': 16}},
     'calltracer': {'quick': {'n': 100, 'size': 10, 'shards': 2}, 'thorough': {'n': 2000, 'size': 10, 'shards': 16}},
-    'frame': {'quick': {'n': 150, 'size': 10, 'shards': 2}, 'thorough': {'n': 2000, 'size': 10, 'shards': 16}},
+    'frame': {'quick': {'n': 150, 'size': 10, 'shards': 2}, 'thorough': {'n': 700, 'size': 10, 'shards': 16}},
     'cancun': {'quick': {'n': 150, 'size': 20, 'shards': 2}, 'thorough': {'n': 3000, 'size': 20, 'shards': 16}},
     'precompile': {'quick': {'n': 150, 'size': 20, 'shards': 2}, 'thorough': {'n': 3000, 'size': 20, 'shards': 16}},
     'journal': {'quick': {'n': 60, 'size': 20, 'shards': 2}, 'thorough': {'n': 400, 'size': 100, 'shards': 16}},
-    'interp': {'quick': {'n': 400, 'size': 30, 'shards': 4}, 'thorough': {'n': 6000, 'size': 40, 'shards': 16}},
+    'interp': {'quick': {'n': 400, 'size': 30, 'shards': 4}, 'thorough': {'n': 3000, 'size': 40, 'shards': 16}},
 }
 
 TB_M1 = ['vm/tracer.go is modelled by hand (Artela/Model/CallTree.lean, StateChanges.lean); Go maps as insertion-ordered '
@@ -75,7 +75,7 @@ PROPS = {
     },
     'C02': {
         'modules': ['Artela.Props.C01', 'Artela.Props.C06', 'Artela.Proofs.GenFacts', 'Artela.Props.InterpGas'],
-        'runs': [{'layer': 'diff'}, {'layer': 'interp'}],
+        'runs': [{'layer': 'diff'}, {'layer': 'interp'}, {'layer': 'precompile'}],
         'trusted_base': TB_DIFF + TB_M5 + TB_GEN + TB_M9,
         'assumptions': ['gas schedule functions are inherited (identity table) and compared step by step, including a gas-limit sweep'],
         'partial': 'as C01',
